@@ -6,7 +6,7 @@ import hvgen
 import hvhist
 from hvgen import Mirror
 
-PROP_MODULES = ["HvsrVerif.Props.C06"]
+PROP_MODULES = ["HvsrVerif.Props.C06", "HvsrVerif.Props.C06Order"]
 BRIDGE_MODULES = ["HvsrVerif.Bridge.C06"]
 
 
